@@ -59,3 +59,15 @@ Definition and_kind (l r : okind) : pyerr + okind :=
   | KFilter, KFilter => inr KFilter
   | _, _ => inr KTimeline            (* timeline & filter, filter & timeline: a filtered timeline *)
   end.
+
+(* transform.buffer(timeline, before=.., after=..): negative amounts are rejected with
+   ValueError when the buffer is BUILT, whatever the operand is (a buffered timeline included) *)
+Definition buffer_ (e : expr) (before after : Z) : pyerr + expr :=
+  if (before <? 0) || (after <? 0) then inl ValueError else inr (Buf e before after).
+
+(* buffer(buffer(... buffer(e, b1, a1) ..., b2, a2) ...): innermost amounts first *)
+Fixpoint buffer_chain (e : expr) (amts : list (Z * Z)) : pyerr + expr :=
+  match amts with
+  | [] => inr e
+  | (b, a) :: r => match buffer_ e b a with inl x => inl x | inr e' => buffer_chain e' r end
+  end.
